@@ -271,9 +271,16 @@ def run_programs(progs, timeout=600):
     src = render_many(progs)
     if nightly:
         src = "#![feature(generic_const_exprs)]\n#![allow(incomplete_features)]\n" + src
-    open(os.path.join(cache, "src", "main.rs"), "w").write(src)
-    rc, out, secs = run(["cargo"] + (["+nightly"] if nightly else []) + ["run", "--offline", "--quiet", "--release"], timeout, cwd=cache,
-                        env={"RUSTFLAGS": "-Awarnings"})
+    # the replay crate is shared by every check: serialise writers (checks may be run concurrently)
+    import fcntl
+    with open(os.path.join(cache, ".lock"), "w") as lk:
+        fcntl.flock(lk, fcntl.LOCK_EX)
+        try:
+            open(os.path.join(cache, "src", "main.rs"), "w").write(src)
+            rc, out, secs = run(["cargo"] + (["+nightly"] if nightly else []) + ["run", "--offline", "--quiet", "--release"], timeout, cwd=cache,
+                                env={"RUSTFLAGS": "-Awarnings"})
+        finally:
+            fcntl.flock(lk, fcntl.LOCK_UN)
     if rc is None:
         return [{"obs": {}, "panic": None, "error": "timeout", "lists": {}, "raw": ""} for _ in progs]
     parts = re.split(r"^== (\d+)$", out, flags=re.M)
